@@ -1,6 +1,8 @@
 package worlds
 
 import (
+	"bufio"
+	"bytes"
 	"encoding/hex"
 	"encoding/json"
 	"fmt"
@@ -124,6 +126,20 @@ func genRTx(c *kernel.RunCtx, extended bool, heavy *int) *models.RTx {
 		var in models.RIn
 		copy(in.TxIDWire[:], c.Bytes(32))
 		in.Vout, in.Seq = pickU32(c), pickU32(c)
+		switch c.Pick(12, 1, 1, 1) {
+		case 1: // the null outpoint (coinbase pattern) — here it is just another outpoint
+			in.TxIDWire = [32]byte{}
+			in.Vout = 0xffffffff
+			c.Count("probe.null_outpoint_input", 1)
+		case 2:
+			for j := range in.TxIDWire {
+				in.TxIDWire[j] = 0xff
+			}
+		case 3:
+			if i > 0 { // an exact duplicate of the previous outpoint
+				in.TxIDWire, in.Vout = t.Ins[i-1].TxIDWire, t.Ins[i-1].Vout
+			}
+		}
 		in.Script = fillBytes(c, slen(nin > 300))
 		if extended {
 			in.PrevSats = pickU64(c)
@@ -134,7 +150,28 @@ func genRTx(c *kernel.RunCtx, extended bool, heavy *int) *models.RTx {
 	}
 	for i := 0; i < nout; i++ {
 		c.Begin("out")
-		t.Outs = append(t.Outs, models.ROut{Sats: pickU64(c), Script: fillBytes(c, slen(nout > 300))})
+		o := models.ROut{Sats: pickU64(c), Script: fillBytes(c, slen(nout > 300))}
+		switch c.Pick(10, 2, 2, 1) {
+		case 1: // a P2PKH template
+			o.Script = p2pkh(c.Bytes(20))
+		case 2: // a near-duplicate of an earlier output's script: same bytes, different tail
+			if i > 0 && len(t.Outs[c.Choose(i)].Script) > 2 {
+				src := t.Outs[c.Choose(i)].Script
+				if len(src) > 2 {
+					o.Script = append([]byte(nil), src...)
+					o.Script[len(o.Script)-1] ^= byte(1 + c.Choose(255))
+					if c.Bool(1, 2) {
+						o.Script[len(o.Script)-2] ^= byte(1 + c.Choose(255))
+					}
+					c.Count("probe.near_duplicate_script", 1)
+				}
+			}
+		case 3: // an exact duplicate of the previous output
+			if i > 0 {
+				o = models.ROut{Sats: t.Outs[i-1].Sats, Script: append([]byte(nil), t.Outs[i-1].Script...)}
+			}
+		}
+		t.Outs = append(t.Outs, o)
 		c.End()
 	}
 	if nin == 0 && nout == 0 && t.Lock == 0xEF000000 {
@@ -472,6 +509,12 @@ func (w *c01World) Run(c *kernel.RunCtx) {
 		return
 	}
 	w.sliceAPIs(c, data, txs, ends, extended, container, variant)
+	if !c.Failed() && variant != 2 {
+		w.bufferRoute(c, data, txs, ends, extended, container)
+	}
+	if c.Failed() {
+		return
+	}
 	w.apiBuilt(c, txs[0], extended)
 	w.fieldDecoders(c, txs[0], extended)
 	if !c.Failed() && len(data) < 4000 {
@@ -618,6 +661,50 @@ func refVarInt(b []byte) (uint64, int) {
 }
 
 // decodeStream: the receiver reads the whole stream through one simulated reader.
+// bufferRoute: the transaction arrives in a *bytes.Buffer / *bytes.Reader / bufio.Reader the caller owns and re-uses.
+// After decoding, the caller's storage is overwritten; what was decoded must not change.
+func (w *c01World) bufferRoute(c *kernel.RunCtx, data []byte, txs []*models.RTx, ends []int, extended bool, container int) {
+	if container == 2 || len(txs) == 0 {
+		return
+	}
+	c.Begin("buffer-route")
+	kind := c.Choose(3)
+	c.End()
+	own := append([]byte(nil), data...)
+	var rd io.Reader
+	var bb *bytes.Buffer
+	switch kind {
+	case 0:
+		bb = bytes.NewBuffer(own)
+		rd = bb
+	case 1:
+		rd = bytes.NewReader(own)
+	default:
+		rd = bufio.NewReaderSize(bytes.NewReader(own), 16+len(own))
+	}
+	tx := &bt.Tx{}
+	var n int64
+	var err error
+	c.Exec()
+	if p := catch(func() { n, err = tx.ReadFrom(rd) }); p != "" || err != nil || int(n) != ends[0] {
+		c.Fail("decode", "Tx.ReadFrom", "reading from a %s: panic=%q err=%v n=%d want %d", []string{"*bytes.Buffer", "*bytes.Reader", "*bufio.Reader"}[kind], p, err, n, ends[0])
+		return
+	}
+	// the caller recycles its storage
+	for i := range own {
+		own[i] = 0xA5
+	}
+	if bb != nil {
+		bb.Reset()
+		bb.Write(bytes.Repeat([]byte{0x5A}, len(own)))
+	}
+	c.Count("probe.caller_buffer_recycled", 1)
+	ext := extendedOf(data, ends, 0, container, extended)
+	if d := cmpTx(tx, txs[0], ext); d != "" {
+		c.Fail("aliasing", "Tx.ReadFrom", "after the caller overwrote the %s it had decoded from, the decoded transaction changed: %s", []string{"*bytes.Buffer", "*bytes.Reader", "*bufio.Reader"}[kind], d)
+	}
+}
+
 func (w *c01World) decodeStream(c *kernel.RunCtx, data []byte, txs []*models.RTx, ends []int, extended bool, container int, minimal bool, hasTail bool, plan kernel.Plan) {
 	st := kernel.NewStream(data, plan)
 	c.Logf("decode container=%d extended=%v ntx=%d bytes=%d plan=%s", container, extended, len(txs), len(data), plan)
